@@ -192,7 +192,7 @@ def check_conservation(view, R, prefix="C01"):
             if np.any(IN[:-1] > 0) or np.any(OUT[:-1] > 0):
                 R.count("balance_steps_with_flow", int(np.sum((IN[:-1] > 0) | (OUT[:-1] > 0))))
     # global: total over non-source compartments changes only by source outflow
-    if T >= 2:
+    if T >= 2 and any(c["kind"] != "src" for c in view.comps):
         tot = np.sum([c["vals"] for c in view.comps if c["kind"] != "src"], axis=0)
         births = np.sum([c["OUT"] for c in view.comps if c["kind"] == "src"], axis=0) if any(c["kind"] == "src" for c in view.comps) else np.zeros(T)
         gross = np.sum([np.abs(l["vals"]) for l in view.links], axis=0) if view.links else np.zeros(T)
